@@ -106,7 +106,7 @@ var strictKnown bool
 
 // cmpConflictRecords compares the conflict records of a node that only synchronised to the reset height (want) with
 // those of the reset node (got); removed = the encoded blocks the reset took away.
-func cmpConflictRecords(want, got map[string]string, removed [][]byte, srih bool, o *vt.Obs) error {
+func cmpConflictRecords(want, got map[string]string, removed [][]byte, srih bool, o *vt.Obs, lost map[string]bool) error {
 	renamed := map[string]bool{} // hashes named by Conflicts attributes of removed blocks
 	for _, raw := range removed {
 		blk, err := ck.DecodeBlock(raw, srih)
@@ -141,7 +141,9 @@ func cmpConflictRecords(want, got map[string]string, removed [][]byte, srih bool
 		}
 		h := k[2:66]
 		_, below := want["01"+h]
-		if below && renamed[h] && !strictKnown && vt.Known(KnownResetConflictLost) {
+		if below && (renamed[h] || lost[h]) && !strictKnown && vt.Known(KnownResetConflictLost) {
+			// (lost: an earlier reset of this history has hit the listed shape for this hash: the record is gone for good)
+			lost[h] = true
 			excluded = true
 			continue
 		}
@@ -263,6 +265,7 @@ func checkCase(c Case, o *vt.Obs) error {
 	}
 	mark("boot", start, nil, 0)
 	sawGC, sawReset, sawHeaders, sawRace := false, false, false, false
+	lostConflicts := map[string]bool{} // hashes whose conflict record an earlier reset of this history lost (listed finding)
 	refused := false
 	for i, op := range c.Ops {
 		from := rec.Count()
@@ -414,7 +417,7 @@ func checkCase(c Case, o *vt.Obs) error {
 				nb.Close()
 				return err
 			}
-			if err := cmpConflictRecords(ck.ConflictRecords(nb.N.Base()), ck.ConflictRecords(n.Base()), prev.raws[target:delivered], c.Chain.SRIH, o); err != nil {
+			if err := cmpConflictRecords(ck.ConflictRecords(nb.N.Base()), ck.ConflictRecords(n.Base()), prev.raws[target:delivered], c.Chain.SRIH, o, lostConflicts); err != nil {
 				nb.Close()
 				return fmt.Errorf("op %d: after the completed reset from height %d to %d the conflict records differ from those of a node that only synchronised to %d: %v", i, delivered, target, target, err)
 			}
